@@ -128,8 +128,11 @@ def dumpstruct_text_job(tier) -> JobResult:
 
 
 def _check_dumpstruct(res, text, S, v, raw, payload, align, compiled, dumpstruct, names=None):
+    single_char = len(S.__fields__) == 1 and issubclass(S.__fields__[0].type, bytes)
     for color in (True, False):
         for form in ("instance", "type+data"):
+            if form == "type+data" and single_char:
+                continue  # T(bytes) constructs (rather than parses) a structure whose only field is a char of that size
             res.evaluations += 1
             res.states += 1
             res.transitions += 1
